@@ -218,7 +218,21 @@ pub fn run_job_plain(job: &Job, salt: u64) -> Vec<u64> {
     e.output()
 }
 
+struct SilentTraceLogger;
+impl log::Log for SilentTraceLogger {
+    fn enabled(&self, _m: &log::Metadata) -> bool {
+        true
+    }
+    fn log(&self, _r: &log::Record) {}
+    fn flush(&self) {}
+}
+static SILENT_TRACE: SilentTraceLogger = SilentTraceLogger;
+
 pub fn replica_child_main(path: &str, salt: u64) -> i32 {
+    // per-process ambient state: a logger that enables every level (silently) may be installed in this process
+    if std::env::var("VERIF_LOG_TRACE").is_ok() && log::set_logger(&SILENT_TRACE).is_ok() {
+        log::set_max_level(log::LevelFilter::Trace);
+    }
     let text = match std::fs::read_to_string(path) {
         Ok(t) => t,
         Err(_) => return 2,
@@ -463,11 +477,15 @@ impl Scenario for Replicas {
             for (k, perturb_byte) in plan.process_replicas.iter().enumerate() {
                 ctx.ev("child-process", *perturb_byte as u64);
                 ctx.count("fault:fresh-process-aslr-randomstate-malloc-perturb");
+                if perturb_byte % 2 == 1 {
+                    ctx.count("fault:child-process-with-trace-level-logger");
+                }
                 let o = std::process::Command::new(std::env::current_exe().unwrap())
                     .arg("replica")
                     .arg(&path)
                     .arg((100 + k).to_string())
                     .env("MALLOC_PERTURB_", perturb_byte.to_string())
+                    .envs(if perturb_byte % 2 == 1 { vec![("VERIF_LOG_TRACE", "1")] } else { vec![] })
                     .output()
                     .expect("harness: cannot start replica child");
                 let text = String::from_utf8_lossy(&o.stdout).to_string();
